@@ -11,9 +11,12 @@ def axes(draw, k, decades=3.0):
     base = [draw(f(-decades, decades)) for _ in range(k)]
     mode = draw(st.sampled_from(["free", "free", "tie_all", "tie_two", "near_tie", "needle", "disc", "integers"]))
     ax = [10.0 ** b for b in base]
+    # the numeric type the parameters are handed over in (see typed()); the case itself keeps plain Python numbers
+    ptype = draw(st.sampled_from(["py", "py", "py", "np.float64", "np.float32", "np.int64", "np.int32"]))
     if mode == "integers":
         # integer-typed parameters (Ellipsoid(1, 2, 3)): arithmetic on them must not stay in integers
-        return {"axes": [draw(st.integers(1, 9)) for _ in range(k)], "mode": mode}
+        hi = draw(st.sampled_from([9, 9, 1000]))  # up to 1e3 (the stated range): products of fixed-width integers must not wrap
+        return {"axes": [draw(st.integers(1, hi)) for _ in range(k)], "mode": mode, "ptype": ptype}
     if mode == "tie_all":
         ax = [ax[0]] * k
     elif mode == "tie_two" and k >= 2:
@@ -34,7 +37,17 @@ def axes(draw, k, decades=3.0):
     elif mode == "disc" and k >= 2:
         i = draw(st.integers(0, k - 1))
         ax = [max(a * (1e-3 if t == i else 1.0), 1e-6) for t, a in enumerate(ax)]
-    return {"axes": [float(a) for a in ax], "mode": mode}
+    return {"axes": [float(a) for a in ax], "mode": mode, "ptype": ptype if ptype == "np.float64" else "py"}
+
+
+def typed(axd):
+    """The parameters of an axes() case as the numeric type recorded in it: Python numbers, numpy float64 scalars, or - only
+    for the integer-valued mode, where the value is represented exactly - numpy int64/int32/float32 scalars."""
+    t = axd.get("ptype", "py")
+    if t == "py":
+        return list(axd["axes"])
+    conv = {"np.float64": np.float64, "np.float32": np.float32, "np.int64": np.int64, "np.int32": np.int32}[t]
+    return [conv(a) for a in axd["axes"]]
 
 
 @st.composite
@@ -54,7 +67,7 @@ def centre(draw, dim3=True):
             c[2] = c[0] - 0.53 if abs(c[0] - 0.53 - c[1]) > 1e-3 else c[0] - 0.91
     if not dim3:
         c[2] = 0.0
-    containers = ["tuple", "list", "ndarray"] + (["omitted", "omitted"] if kind == "origin" else [])
+    containers = ["tuple", "list", "ndarray", "ndarray", "int_tuple", "int_ndarray"] + (["omitted", "omitted"] if kind == "origin" else [])
     return {"rel": c, "container": draw(st.sampled_from(containers)), "kind": kind}
 
 
@@ -67,6 +80,11 @@ def make_centre(cdict, scale):
     c = [x * scale for x in cdict["rel"]]
     if cdict["container"] == "omitted":
         return Omitted((0.0, 0.0, 0.0))
+    if cdict["container"] in ("int_tuple", "int_ndarray"):
+        # integer-typed centre (Circle(1, (2, -3, 0)), np.array([2, -3, 0])): the components rounded to integers (at least
+        # as far apart as before in units of the scale when the scale is >= 1; otherwise mostly zeros, still legitimate)
+        ci = [int(round(x)) for x in c]
+        return tuple(ci) if cdict["container"] == "int_tuple" else np.array(ci, dtype=np.int64)
     if cdict["container"] == "tuple":
         return tuple(c)
     if cdict["container"] == "list":
